@@ -255,6 +255,7 @@ def oracle_C08(ctx, pexpect, results, real_peers):
         send_after_await(ctx, pexpect)
         send_after_reads(ctx, pexpect)
         send_with_other_ops(ctx, pexpect)
+        encoders_are_per_object(ctx, pexpect)
 
 
 def write_all_cases(ctx, pexpect, n):
@@ -444,6 +445,33 @@ def send_after_reads(ctx, pexpect):
                     except OSError:
                         pass
     ctx.oracle_stats['send_after_reads'] = tried
+
+
+def encoders_are_per_object(ctx, pexpect):
+    """codecs with state (a byte order mark at the start of the stream: utf-16, utf-32, utf-8-sig): every object encodes ITS stream from
+    the start - what the peer of the second and third object receives is what the peer of the first receives"""
+    from pexpect import fdpexpect
+    tried = 0
+    for codec in ('utf-16', 'utf-8-sig', 'utf-32'):
+        for k in range(3):
+            r, w = os.pipe()
+            try:
+                c = fdpexpect.fdspawn(w, encoding=codec, timeout=5)
+                n1 = c.send('ab')
+                n2 = c.sendline('c')
+                got = os.read(r, 1000)
+            finally:
+                os.close(r)
+                os.close(w)
+            tried += 1
+            want = codecs.getincrementalencoder(codec)().encode('ab') if False else None
+            enc = codecs.getincrementalencoder(codec)()
+            want = enc.encode('ab') + enc.encode('c\n')
+            if got != want:
+                ctx.hit('C08/encoder-state', 'object number %d with encoding %s: send(\'ab\') + sendline(\'c\') delivered %r, the stream encodes to %r (returned counts %r, %r)'
+                        % (k + 1, codec, got, want, n1, n2), {'codec': codec, 'object': k + 1})
+                return
+    ctx.oracle_stats['encoder_state_objects'] = tried
 
 
 def send_with_other_ops(ctx, pexpect):
